@@ -422,6 +422,34 @@ def text_formats(ctx):
                 R.check("C03-D2a dumps keep key order", not extra_kw, f"{ctx.fq(f)}: {lib}.{node.func.attr} emitter options", mod=f.module, node=node,
                         function=ctx.fq(f), expected="library defaults (plus sort_keys=False): the reader restores every string the writer emits",
                         found=f"options {extra_kw}", key_extra="opts")
+    # a dump function handed to a private helper of the class as an argument (dump=yaml.dump): the helper's call of that parameter
+    # is the dump call, with the library of the function that was handed over
+    for f in {id(x): x for x in io.methods.values()}.values():
+        for node in walk_no_nested(f.node):
+            if not (isinstance(node, ast.Call) and isinstance(node.func, ast.Attribute) and isinstance(node.func.value, ast.Name)
+                    and node.func.value.id in ("cls", "self") and node.func.attr in io.methods):
+                continue
+            g = io.methods[node.func.attr]
+            gp = [a_.arg for a_ in g.node.args.posonlyargs + g.node.args.args]
+            gp = gp[1:] if gp and gp[0] in ("cls", "self") else gp
+            handed = [(gp[i_], a_) for i_, a_ in enumerate(node.args) if i_ < len(gp)] + [(k_.arg, k_.value) for k_ in node.keywords if k_.arg]
+            for pname, val in handed:
+                if not (isinstance(val, ast.Attribute) and val.attr in ("dump", "dumps") and isinstance(val.value, ast.Name) and val.value.id in ("yaml", "json")):
+                    continue
+                lib = val.value.id
+                for c2 in walk_no_nested(g.node):
+                    if isinstance(c2, ast.Call) and isinstance(c2.func, ast.Name) and c2.func.id == pname:
+                        n += 1
+                        kw = {k.arg: k.value for k in c2.keywords}
+                        sk = kw.get("sort_keys")
+                        ok = (isinstance(sk, ast.Constant) and sk.value is False) or (lib == "json" and sk is None)
+                        R.check("C03-D2a dumps keep key order", ok, f"{ctx.fq(f)}: {lib}.{val.attr} through {g.name}", mod=g.module, node=c2, function=ctx.fq(g),
+                                expected="sort_keys=False (PyYAML sorts mapping keys by default)", found=f"sort_keys={ast.unparse(sk) if sk is not None else 'default'}",
+                                key_extra=f.name)
+                        extra_kw = sorted(k for k in kw if k not in ("sort_keys", "indent", "width", "stream", "end"))
+                        R.check("C03-D2a dumps keep key order", not extra_kw, f"{ctx.fq(f)}: {lib}.{val.attr} through {g.name} emitter options", mod=g.module,
+                                node=c2, function=ctx.fq(g), expected="library defaults (plus sort_keys=False): the reader restores every string the writer emits",
+                                found=f"options {extra_kw}", key_extra="opts" + f.name)
     if n < 3:
         raise AnalysisError("fewer than three dump calls found in InputOutputMixin")
     R.rule("C03-D2b format tables", 4, "serializer/deserializer tables name existing methods; json, yaml and suit occur in both")
